@@ -203,6 +203,11 @@ impl C05 {
             ids = set.into_iter().collect();
         }
         assert_eq!(ids.len(), n_terms);
+        // HP:0000000 is an ordinary term id: in a third of the cases it is the smallest member
+        if rng.chance(1, 3) {
+            ids[0] = 0;
+            out.bucket("term_id_0_in_sets");
+        }
         let ont = if rng.chance(1, 3) {
             match flat_ontology_with_obsolete(&ids, rng) {
                 Some(o) => {
@@ -445,7 +450,7 @@ impl Monitor for C05 {
         v
     }
     fn mandatory_buckets(&self, _tier: Tier) -> Vec<String> {
-        ["shape/square", "shape/vector", "shape/rectangular", "shape/empty", "similarity/asymmetric", "similarity/symmetric", "set_shape/empty_side", "set_shape/rectangular", "set_shape/square", "same_object_on_both_sides", "two_cached_wrappers_alive", "sets_with_obsolete_members", "huge/more_than_65535_vs_empty", "huge/sizes_sum_above_65535"]
+        ["shape/square", "shape/vector", "shape/rectangular", "shape/empty", "similarity/asymmetric", "similarity/symmetric", "set_shape/empty_side", "set_shape/rectangular", "set_shape/square", "same_object_on_both_sides", "term_id_0_in_sets", "two_cached_wrappers_alive", "sets_with_obsolete_members", "huge/more_than_65535_vs_empty", "huge/sizes_sum_above_65535"]
             .iter()
             .map(|s| (*s).to_string())
             .collect()
